@@ -8,7 +8,7 @@ RULE = ("op mn.parse <phrase> (returns printed form, length, Display) on: word c
         "(quick: each word once at a random position of a valid phrase; thorough: each word at each of 24 positions); all 2048 candidates "
         "for the final word of a random prefix for each count 12..24 (quick: counts 12 and 24 in full, 128 candidates for the others); random entropies of "
         "the five sizes via mn.random with injected entropy (parse∘print round trip); whitespace layouts; malformed stream. "
-        "a random sample of the cases is re-run through every sub-command that reaches the same code (vlib/routes.py); near-miss tokens (valid phrases with one word replaced by an upper-case / full-width / ligature / roman-numeral / superscript / mathematical-alphabet / abbreviated / invisibly-padded look-alike of the same word); non-trivial = distinct phrase that reaches the checksum comparison (12..24 known words); judge = executable Spec.Bip39.Valid")
+        "a random sample of the cases is re-run through every sub-command that reaches the same code (vlib/routes.py); wide layouts (runs of up to 50 white-space characters, column layout, valid phrases padded to exact byte lengths 200..1000003 around 216 / 2^k / 10^k); near-miss tokens (valid phrases with one word replaced by an upper-case / full-width / ligature / roman-numeral / superscript / mathematical-alphabet / abbreviated / invisibly-padded look-alike of the same word); non-trivial = distinct phrase that reaches the checksum comparison (12..24 known words); judge = executable Spec.Bip39.Valid")
 EXHAUSTIVE_SWEEPS = {
     "quick": ["word counts 0..40", "all 2048 words (once each)", "all 2048 final-word candidates for 12- and 24-word prefixes"],
     "thorough": ["word counts 0..40", "all 2048 words x 24 positions", "all 2048 final-word candidates for every count 12..24"]}
@@ -60,6 +60,33 @@ def gen(rng, tier):
             s = s.rstrip()
             s = s if s.split() == ws else " ".join(ws)
         add(s, "layout")
+    # wide layouts: the same valid words with long runs of white space between them and around them, and padded to exact
+    # byte lengths around the sizes a buffer or a sanity bound might have (24 words x 9 = 216, powers of two, 10^k)
+    for _ in range(60 if tier == "thorough" else 15):
+        ws = bip39.rand_phrase(rng)
+        gap = lambda: "".join(rng.choice(WS) for _ in range(rng.choice([1, 2, 4, 7, 12, 20, 50])))
+        add(gap() + "".join(w + gap() for w in ws), "layout", "wide")
+        add("\n    ".join(ws) + "\n", "layout", "wide")
+    for n in (12, 15, 18, 21, 24):
+        ws = bip39.rand_phrase(rng, n)
+        base = " ".join(ws)
+        for total in (200, 215, 216, 217, 218, 240, 255, 256, 257, 300, 511, 512, 513, 1023, 1024, 1025, 4095, 4096, 4097, 9999, 10000, 10001, 65535, 65536, 65537, 1000003):
+            if total < len(base):
+                continue
+            pad = total - len(base)
+            where = rng.randrange(3)
+            if where == 0:
+                t = base + " " * pad
+            elif where == 1:
+                t = " " * pad + base
+            else:
+                k = rng.randrange(1, n)
+                t = " ".join(ws[:k]) + " " * (pad + 1) + " ".join(ws[k:])
+            assert len(t) == total
+            add(t, "layout", "padded-to:%d" % (total if total < 1000 else 1000))
+        # an invalid one of each size too (the size must not make it valid)
+        bad = " ".join(ws[:-1] + [W[(W.index(ws[-1]) + 1) % 2048]])
+        add(bad + " " * (4096 - len(bad)), "malformed", "padded")
     # malformed
     for _ in range(400 if tier == "thorough" else 120):
         ws = bip39.rand_phrase(rng)
